@@ -49,7 +49,7 @@ def c15(c):
                             {'probe': k, 'result': v})
     ex = res.get('extra') or {}
     if ex.get('hash_collisions_between_different_trees'):
-        c.notes.append('remark: %d pairs of structurally different trees share a hash (not required by C15): %s'
+        c.notes.append('remark: %d trees share their hash with a structurally different tree (not required by C15): %s'
                        % (ex['hash_collisions_between_different_trees'], ex.get('hash_collision_samples')))
     c.cov['traces_validated_against_impl'] = res['completed']
     c.cov['evaluations'] = res['executed']
